@@ -1,11 +1,20 @@
 (* C02 Every accepted byte string re-packs; re-encoding is a fixed point.
-   Proved: on the canonical states (what Unpack itself produces inside the domain) re-encoding is a fixed point for
-   every primitive field: unpack(pack st) = st and pack of that is the same bytes, so canon (canon d) = canon d for
-   every d = pack st. The step "whatever Unpack accepts lies in the domain" (C02_accept_statement) is checked by
-   the oracle on mutated encodings and not yet proved; it is false for EBCDIC1047 text fields (known finding F26,
-   refuted below with a witness). *)
-From Iso Require Import Model.Base Model.Padding Model.Encoding Model.Prefix Model.Bitmap Model.Spec Model.Field
-     Proofs.BaseLemmas Proofs.PrefixProofs Proofs.FieldProofs.
+   Proved: (1) a primitive field that accepts bytes ends in a state of the round trip's domain, which packs
+   (C02_prim_accept), so the re-packed bytes are accepted again, decode to the same value and re-pack to themselves
+   (C02_prim_canonical) - for every coherent primitive specification satisfying accept_ok: an encoder whose decoded
+   text is what it encodes (EBCDIC1047 is known finding F26, refuted below with a witness), a pad character the
+   encoder accepts, a maximum the prefix digits can express, and for Numeric fields a way to restore the declared
+   width (no fixed length without padding: that was defect F21 of the shipped specs) with a pad character that is not
+   a significant digit. (2) A message that Unpack accepts lies in the domain of the message round trip and re-packs;
+   the re-packed bytes are accepted again - whatever follows them, whatever object they are unpacked into - decode to
+   the same MTI, bitmap, set of elements and element contents, and re-pack to exactly themselves
+   (C02_message_canonical), for every coherent message specification whose field specifications are accepting
+   (C02_prim_accepting: all primitive fields are; composites are accepting when a re-packed subfield cannot outgrow
+   the composite's declared maximum - not proved in general, checked by the oracle on mutated encodings).
+   C02_prim_fixed_point is the round trip on the domain itself. *)
+From Iso Require Import Model.Base Model.Padding Model.Encoding Model.Prefix Model.Bitmap Model.Spec Model.Field Model.Message
+     Proofs.BaseLemmas Proofs.PrefixProofs Proofs.FieldProofs Proofs.CompositeProofs Proofs.MessageRoundtrip Proofs.AcceptProofs Proofs.MessageAccept Proofs.CoherenceCheck Gen.ShippedSpecs.
+From Coq Require Import Lia.
 
 Theorem C02_prim_fixed_point : forall p st b, coherent_pspec p -> prim_in_domain p st -> prim_pack p st = Ok b ->
   forall st0, prim_unpack p st0 b = (st, UOk (zlen b)) /\
@@ -16,8 +25,70 @@ Proof.
 Qed.
 Print Assumptions C02_prim_fixed_point.
 
-Definition C02_accept_statement : Prop :=
-  forall p st0 d st n, coherent_pspec p -> prim_unpack p st0 d = (st, UOk n) -> is_ok (prim_pack p st) = true.
+(* what a primitive field accepts lies in the domain of the round trip, and packs *)
+Theorem C02_prim_accept : forall p st0 d st n, coherent_pspec p -> accept_ok p -> prim_unpack p st0 d = (st, UOk n) ->
+  prim_in_domain p st /\ exists b, prim_pack p st = Ok b.
+Proof. exact prim_accept. Qed.
+Print Assumptions C02_prim_accept.
+
+(* unpack-then-pack is a canonicalisation: its result is accepted again (with anything after it, into any object),
+   gives the same value, and is its own re-encoding *)
+Theorem C02_prim_canonical : forall p st0 d st n, coherent_pspec p -> accept_ok p -> prim_unpack p st0 d = (st, UOk n) ->
+  exists b, prim_pack p st = Ok b /\
+    forall st1 rest, prim_unpack p st1 (b ++ rest) = (st, UOk (zlen b)) /\ prim_pack p (fst (prim_unpack p st1 (b ++ rest))) = Ok b.
+Proof.
+  intros p st0 d st n Hc Ha Hu. destruct (prim_accept p st0 d st n Hc Ha Hu) as (Hd & b & Hp). exists b. split; [exact Hp|].
+  intros st1 rest. pose proof (prim_roundtrip p st b Hc Hd Hp st1 rest) as H. split; [exact H|]. rewrite H. exact Hp.
+Qed.
+Print Assumptions C02_prim_canonical.
+
+Theorem C02_prim_accepting : forall p, coherent_pspec p -> accept_ok p -> accepting (FPrim p).
+Proof. exact prim_accepting. Qed.
+Print Assumptions C02_prim_accepting.
+
+Theorem C02_message_accept : forall S m0 d m n, msg_coherent S -> accept_ok (ms_mti S) ->
+  (forall id s, zlookup id (ms_fields S) = Some s -> accepting s) ->
+  m_unpack S m0 d = (m, UOk n) -> msg_in_dom S m /\ exists m' b, m_pack S m = (m', Ok b).
+Proof. exact message_accept. Qed.
+Print Assumptions C02_message_accept.
+
+Theorem C02_message_canonical : forall S m0 d m n, msg_coherent S -> accept_ok (ms_mti S) ->
+  (forall id s, zlookup id (ms_fields S) = Some s -> accepting s) ->
+  m_unpack S m0 d = (m, UOk n) ->
+  exists m' b, m_pack S m = (m', Ok b) /\
+    forall m1 rest, msg_shaped S m1 ->
+      exists m2, m_unpack S m1 (b ++ rest) = (m2, UOk (zlen b)) /\ msg_equiv S m' m2 /\ snd (m_pack S m2) = Ok b.
+Proof. exact message_canonical. Qed.
+Print Assumptions C02_message_canonical.
+
+(* the shipped specifications (regenerated from the library's spec objects on every run): each is coherent, its MTI
+   is accept_ok, and every primitive data element is accepting - so C02_message_canonical applies to every message
+   made of primitive data elements of each of them. accept_okb is a decision procedure proved sound. *)
+Theorem C02_shipped_specs : forall name t, In (name, t) shipped_specs ->
+  exists MS, spec_of_string t = Some MS /\ msg_coherent MS /\ accept_ok (ms_mti MS) /\
+             forall id p, zlookup id (ms_fields MS) = Some (FPrim p) -> accepting (FPrim p).
+Proof.
+  assert (H : forallb (fun nt : String.string * String.string => match spec_of_string (snd nt) with Some MS => msg_coherentb MS && prims_acceptb MS | None => false end) shipped_specs = true)
+    by (vm_compute; reflexivity).
+  intros name t Hi. rewrite forallb_forall in H. specialize (H (name, t) Hi). cbn [snd] in H.
+  destruct (spec_of_string t) as [MS|]; [|discriminate]. apply Bool.andb_true_iff in H. destruct H as (H1 & H2).
+  pose proof (msg_coherentb_sound MS H1) as Hc. destruct (prims_acceptb_sound MS H2) as (Hm & Hp).
+  exists MS. split; [reflexivity|]. split; [exact Hc|]. split; [exact Hm|].
+  intros id p Hl. apply prim_accepting; [|apply (Hp id p Hl)]. destruct Hc as (_ & _ & _ & _ & Hf). apply (Hf id (FPrim p) Hl).
+Qed.
+Print Assumptions C02_shipped_specs.
+
+(* the hypotheses are satisfiable: a zero-padded fixed Numeric field and a variable String field are accept_ok *)
+Definition p_num : pspec := {| ps_kind := KNumeric; ps_enc := EncASCII; ps_pref := PFixed PfASCII; ps_len := 6; ps_pad := PadLeft x30; ps_packer := PkDefault |}.
+Definition p_str : pspec := {| ps_kind := KString; ps_enc := EncASCII; ps_pref := PVar PfASCII 2; ps_len := 19; ps_pad := PadNone; ps_packer := PkDefault |}.
+Example C02_ex_accept_ok : accept_ok p_num /\ accept_ok p_str /\ coherent_pspec p_num /\ coherent_pspec p_str /\
+  prim_unpack p_num (SNumeric 0) [x30; x30; x30; x30; x31; x32] = (SNumeric 12, UOk 6) /\
+  prim_unpack p_num (SNumeric 5) [x30; x30; x30; x30; x30; x30] = (SNumeric 0, UOk 6).
+Proof.
+  unfold accept_ok, coherent_pspec, plain_enc, pref_plain, pad_char_ok. cbn [p_num p_str ps_enc ps_pref ps_len ps_pad ps_kind ps_packer wf_pref value_enc].
+  repeat split; try reflexivity; try (unfold max_int; lia); try tauto; try discriminate; try (intros; discriminate); try (vm_compute; intros [? ?]; discriminate); try lia.
+  change (bz x30) with 48. lia.
+Qed.
 
 (* F26: an EBCDIC1047 text field accepts a byte that decodes to a non-ASCII character; the value is then two UTF-8
    bytes long and cannot be re-packed under the same length *)
